@@ -239,8 +239,7 @@ def check_wellformed(det, params, n, p, y, fitted=None):
     if not isinstance(y, pd.DataFrame):
         raise Violation("predict did not return a DataFrame", type=type(y).__name__)
     K = len(y)
-    if not (isinstance(y.index, pd.RangeIndex) and y.index.start == 0 and y.index.step == 1
-            and y.index.stop == K) and not (K == 0 and len(y.index) == 0):
+    if list(y.index) != list(range(K)):
         raise Violation("predict's index is not the range 0..K-1", index=str(y.index))
     if "ilocs" not in y.columns:
         raise Violation("predict has no 'ilocs' column", columns=list(map(str, y.columns)))
